@@ -20,7 +20,7 @@ pub fn run_seed(seed: u64, prop: &str, run: u64) -> u64 {
 pub fn generate(prop: &str, seed: u64, run: u64, thorough: bool) -> Scenario {
     let mut r = Prng::new(run_seed(seed, prop, run));
     match prop {
-        "C01" | "C02" | "C03" | "C09" | "C10" | "C16" | "C19" => common::gen_replicas(prop, &mut r, seed, run),
+        "C01" | "C02" | "C03" | "C09" | "C10" | "C16" | "C19" => common::gen_replicas(prop, &mut r, seed, run, thorough),
         "C07" => c07::generate(&mut r, seed, run),
         "C08" => c08::generate(&mut r, seed, run, thorough),
         "C14" => c14::generate(&mut r, seed, run),
